@@ -4,6 +4,9 @@ stdin : {"roundtrip": [{"root": str|None, "vals": [str|None]*n}],
          "published": [{"vals": [...], "ident_root": "keep"|None|str, "ident_ext": "keep"|None|str,
                         "probes": [{"root": str|None, "vals": [...]}]}],
          "foreign":   [{"self": {"root":..., "vals": [...]}, "services": [None | [scope, ...]]}]}
+         "provider":  [{"vals": [...], "init": "fresh"|"detail-none"|"updated-before"|"extra-idents",
+                        "prior": [...]|None, "extra": [{"root": str|None, "ext": str|None, "at": int}],
+                        "probes": [{"root":..., "vals": [...]}]}]}
 stdout: one JSON object, same keys, one result per case.  Strings leave as lists of UTF-8 byte values."""
 import json
 import sys
@@ -134,7 +137,7 @@ def run_foreign(c):
         services.append(Service(types=None, scopes=scopes, x_addrs=None, epr=f'urn:uuid:{i}', instance_id='1'))
     flat = [t for sc in c['services'] if sc is not None for t in sc]
     out = {'split': {t: split_verdict(t) for t in flat}, 'clean': {t: utf8_clean(t) for t in flat},
-           'parse': {t: parse(t) for t in flat}}
+           'parse': {t: parse(t) for t in flat}, 'match': {t: matches(me, t) for t in flat}}
     try:
         kept = me.filter_services_inside(services)
     except Exception as e:  # noqa: BLE001
@@ -145,7 +148,69 @@ def run_foreign(c):
     return out
 
 
-res = {'roundtrip': [run_roundtrip(c) for c in req.get('roundtrip', [])],
+DETAIL_ATTRS = ('PoC', 'Room', 'Bed', 'Facility', 'Building', 'Floor')
+
+
+def run_provider(c):
+    """The provider-side path of the statement, end to end: SdcLocation -> update_from_sdc_location on a state in
+    the given initial condition -> mk_scopes -> Service -> from_scope_string / filter_services_inside."""
+    loc = mk_loc({'vals': c['vals']})
+    st = statecontainers.LocationContextStateContainer(mock.MagicMock(Handle='d', DescriptorVersion=0), 'h')
+    init = c['init']
+    if init == 'detail-none':
+        st.LocationDetail = None
+    elif init == 'updated-before':             # the state carried another location before (both branches seen)
+        st.update_from_sdc_location(mk_loc({'vals': c['prior']}))
+    elif init == 'none-then-updated':
+        st.LocationDetail = None
+        st.update_from_sdc_location(mk_loc({'vals': c['prior']}))
+    elif init == 'idents-before':              # identifications present before the update (they are replaced)
+        st.Identification = [pm_types.InstanceIdentifier(root=x['root'], extension_string=x['ext']) for x in c['extra']]
+    try:
+        st.update_from_sdc_location(loc)
+    except ValueError:
+        return {'state': 'raise'}
+    if init != 'idents-before':
+        for x in c.get('extra', []):           # additional pm:Identification (BICEPS allows 1..n), any position
+            st.Identification.insert(x['at'], pm_types.InstanceIdentifier(root=x['root'], extension_string=x['ext']))
+    out = {'state': 'ok',
+           'detail': None if st.LocationDetail is None else [b(getattr(st.LocationDetail, a)) for a in DETAIL_ATTRS],
+           'idents': [[b(i.Root), b(i.Extension)] for i in st.Identification]}
+    try:
+        scopes = scopesfactory.mk_scopes(mk_mdib([st]))
+    except Exception as e:  # noqa: BLE001
+        out['state'] = 'mk_scopes-raise:' + exc_kind(e)
+        return out
+    texts = list(scopes.text)
+    pubs = [t for t in texts if t.lower().startswith(SdcLocation.scheme + ':')]
+    service = Service(types=None, scopes=scopes, x_addrs=None, epr='urn:uuid:p', instance_id='1')
+    kept, rows = [], []
+    for p in c['probes']:
+        pl = mk_loc(p)
+        try:
+            kept.append(pl.filter_services_inside([service]) == [service])
+        except Exception as e:  # noqa: BLE001
+            kept.append('raise:' + exc_kind(e))
+        rows.append([matches(pl, t) for t in pubs])
+    out.update({'texts': pubs, 'scopes': [b(t) for t in pubs], 'n_texts': len(texts),
+                'others': [t for t in texts if t not in pubs],
+                'split': [split_verdict(t) for t in pubs], 'parse': [parse(t) for t in pubs],
+                'kept': kept, 'inside': rows})
+    return out
+
+
+try:
+    _probe_st = statecontainers.LocationContextStateContainer(mock.MagicMock(Handle='d', DescriptorVersion=0), 'h')
+    _probe_st.update_from_sdc_location(SdcLocation(fac='x'))
+    IDENT_ROOT = _probe_st.Identification[0].Root
+except Exception:  # noqa: BLE001
+    IDENT_ROOT = None
+import inspect  # noqa: E402
+
+res = {'provider': [run_provider(c) for c in req.get('provider', [])],
+       'scheme': SdcLocation.scheme, 'ident_root': IDENT_ROOT,
+       'default_root': inspect.signature(SdcLocation.__init__).parameters['root'].default,
+       'roundtrip': [run_roundtrip(c) for c in req.get('roundtrip', [])],
        'published': [run_published(c) for c in req.get('published', [])],
        'foreign': [run_foreign(c) for c in req.get('foreign', [])],
        'elements': list(ELEMS)}
